@@ -588,4 +588,1096 @@ theorem wellformed (nb : V → List V) (Vs : List V) (hu : Undirected nb Vs) (ro
     · exact h3.aps a h
   · exact h3.aps a ha
 
+/-! # Part 2: discovery numbers, low points, articulation points (RUNGS 4 and 5) -/
+
+theorem D_setKV (k v : V) (x : Nat) (l : List (V × Nat)) :
+    D (setKV k x l) v = if v = k then x else D l v := by
+  unfold D
+  rw [lookup_setKV]
+  split <;> rfl
+
+/-- (parent, child) of the frames, top first; does not change when a pointer advances -/
+def spine (st : List Frame) : List (V × V) := st.map (fun f => (f.parent, f.child))
+
+@[simp] theorem spine_nil : spine [] = [] := rfl
+@[simp] theorem spine_cons (f : Frame) (st : List Frame) : spine (f :: st) = (f.parent, f.child) :: spine st := rfl
+theorem spine_adv (f : Frame) (st : List Frame) : spine (adv f :: st) = spine (f :: st) := rfl
+
+theorem mem_spine {st : List Frame} {f : Frame} (h : f ∈ st) : (f.parent, f.child) ∈ spine st :=
+  List.mem_map_of_mem h
+
+theorem of_mem_spine {st : List Frame} {e : V × V} (h : e ∈ spine st) : ∃ f ∈ st, f.parent = e.1 ∧ f.child = e.2 := by
+  obtain ⟨f, hf, he⟩ := List.mem_map.mp h
+  exact ⟨f, hf, by rw [← he], by rw [← he]⟩
+
+/-- discovery numbers strictly increase towards the top of the stack -/
+def Sorted (disc : List (V × Nat)) (sp : List (V × V)) : Prop :=
+  sp.Pairwise (fun e e' => D disc e'.2 < D disc e.2)
+
+/-- each frame's parent is the child of the frame below; the bottom frame is (root, root) -/
+def Chain (root : V) : List (V × V) → Prop
+  | [] => True
+  | [e] => e.1 = root ∧ e.2 = root
+  | e :: e' :: r => e.1 = e'.2 ∧ Chain root (e' :: r)
+
+structure Inv4 (root : V) (s : BSt) : Prop where
+  dlt : ∀ v ∈ s.visited, D s.disc v < s.disc.length
+  inj : ∀ u ∈ s.visited, ∀ w ∈ s.visited, D s.disc u = D s.disc w → u = w
+  droot : D s.disc root = 0
+  sorted : Sorted s.disc (spine s.stack)
+  chain : Chain root (spine s.stack)
+
+theorem inv4_init (nb : V → List V) (root : V) : Inv4 root (init nb root) := by
+  constructor
+  · intro v hv; simp [init] at hv; subst hv; simp [init, D, lookup]
+  · intro u hu w hw _; simp [init] at hu hw; rw [hu, hw]
+  · simp [init, D, lookup]
+  · simp [init, Sorted]
+  · simp [init, Chain]
+
+theorem chain_tail {root : V} {e : V × V} {sp : List (V × V)} (h : Chain root (e :: sp)) : Chain root sp := by
+  cases sp with
+  | nil => trivial
+  | cons e' r => exact h.2
+
+theorem sorted_tail {disc : List (V × Nat)} {e : V × V} {sp : List (V × V)} (h : Sorted disc (e :: sp)) :
+    Sorted disc sp := (List.pairwise_cons.mp h).2
+
+theorem sorted_head {disc : List (V × Nat)} {e : V × V} {sp : List (V × V)} (h : Sorted disc (e :: sp)) :
+    ∀ e' ∈ sp, D disc e'.2 < D disc e.2 := (List.pairwise_cons.mp h).1
+
+/-- the children on the stack are discovered nodes (Inv1 in terms of the spine) -/
+theorem spine_child {nb : V → List V} {Vs : List V} {s : BSt} (h1 : Inv1 nb Vs s) :
+    ∀ e ∈ spine s.stack, e.2 ∈ s.visited ∧ e.1 ∈ s.visited := by
+  intro e he
+  obtain ⟨f, hf, h1', h2'⟩ := of_mem_spine he
+  rw [← h1', ← h2']
+  exact ⟨h1.child f hf, h1.parent f hf⟩
+
+theorem inv4_step (nb : V → List V) (Vs : List V) (root : V) (s : BSt) (h1 : Inv1 nb Vs s) (h2 : Inv2 nb root s)
+    (h : Inv4 root s) : Inv4 root (bstep nb s) := by
+  obtain ⟨hdlt, hinj, hdr, hso, hch⟩ := h
+  have adv_case : ∀ f rest, s.stack = f :: rest → ∀ s' : BSt, s'.visited = s.visited → s'.disc = s.disc →
+      s'.stack = adv f :: rest → Inv4 root s' := by
+    intro f rest hs s' hv hd hst
+    constructor
+    · rw [hv, hd]; exact hdlt
+    · rw [hv, hd]; exact hinj
+    · rw [hd]; exact hdr
+    · rw [hd, hst, spine_adv, ← hs]; exact hso
+    · rw [hst, spine_adv, ← hs]; exact hch
+  have pop_case : ∀ f rest, s.stack = f :: rest → ∀ s' : BSt, s'.visited = s.visited → s'.disc = s.disc →
+      s'.stack = rest → Inv4 root s' := by
+    intro f rest hs s' hv hd hst
+    rw [hs] at hso hch
+    constructor
+    · rw [hv, hd]; exact hdlt
+    · rw [hv, hd]; exact hinj
+    · rw [hd]; exact hdr
+    · rw [hd, hst]; exact sorted_tail hso
+    · rw [hst]; exact chain_tail hch
+  apply bstep_cases
+  · intro _; exact ⟨hdlt, hinj, hdr, hso, hch⟩
+  · intro f rest hs hlt hp
+    exact adv_case f rest hs _ rfl rfl rfl
+  · intro f rest nn hs hlt hnn hp hv hle
+    exact adv_case f rest hs _ rfl rfl rfl
+  · intro f rest nn hs hlt hnn hp hv hle
+    exact adv_case f rest hs _ rfl rfl rfl
+  · intro f rest nn hs hlt hnn hp hv
+    have hne : ∀ v ∈ s.visited, v ≠ nn := fun v hv' he => hv (he ▸ hv')
+    have hDv : ∀ v ∈ s.visited, D (setKV nn s.disc.length s.disc) v = D s.disc v := by
+      intro v hv'; rw [D_setKV, if_neg (hne v hv')]
+    have hDn : D (setKV nn s.disc.length s.disc) nn = s.disc.length := by
+      rw [D_setKV, if_pos rfl]
+    have hsc := spine_child h1
+    constructor
+    · simp only []
+      intro v hv'
+      rcases List.mem_cons.mp hv' with h | h
+      · rw [h, hDn]; simp [setKV]
+      · rw [hDv v h]; have := hdlt v h; simp [setKV]; omega
+    · simp only []
+      intro u hu w hw he
+      rcases List.mem_cons.mp hu with hu | hu <;> rcases List.mem_cons.mp hw with hw | hw
+      · rw [hu, hw]
+      · rw [hu, hDn, hDv w hw] at he; have := hdlt w hw; omega
+      · rw [hw, hDn, hDv u hu] at he; have := hdlt u hu; omega
+      · rw [hDv u hu, hDv w hw] at he; exact hinj u hu w hw he
+    · simp only []
+      rw [hDv root h2.root]; exact hdr
+    · simp only []
+      rw [spine_cons, spine_adv, ← hs]
+      unfold Sorted
+      rw [List.pairwise_cons]
+      constructor
+      · intro e he
+        have hev := (hsc e he).1
+        simp only []
+        rw [hDn, hDv _ hev]; exact hdlt _ hev
+      · refine List.Pairwise.imp_of_mem ?_ hso
+        intro a b ha hb hab
+        rw [hDv _ (hsc a ha).1, hDv _ (hsc b hb).1]; exact hab
+    · simp only []
+      rw [spine_cons, spine_adv]
+      rw [hs] at hch
+      exact ⟨rfl, hch⟩
+  · intro f rest hs hlt hlen hc
+    exact pop_case f rest hs _ rfl rfl rfl
+  · intro f rest hs hlt hlen hc
+    exact pop_case f rest hs _ rfl rfl rfl
+  · intro f rest hs hlt hlen
+    exact pop_case f rest hs _ rfl rfl rfl
+  · intro f hs hlt
+    exact pop_case f [] hs _ rfl rfl rfl
+
+/-! ## shape of the stack -/
+
+theorem frame_cases {disc : List (V × Nat)} {root : V} :
+    ∀ sp, Sorted disc sp → Chain root sp → ∀ g ∈ sp, (g.1 = root ∧ g.2 = root) ∨ D disc g.1 < D disc g.2 := by
+  intro sp
+  induction sp with
+  | nil => intro _ _ g hg; simp at hg
+  | cons e sp ih =>
+    intro hso hch g hg
+    rcases List.mem_cons.mp hg with hg | hg
+    · subst hg
+      cases sp with
+      | nil => exact Or.inl hch
+      | cons e' r =>
+        right
+        rw [hch.1]
+        exact sorted_head hso e' (by simp)
+    · exact ih (sorted_tail hso) (chain_tail hch) g hg
+
+/-- everything below the top frame was discovered no later than the top frame's parent -/
+theorem below_le_parent {disc : List (V × Nat)} {root : V} {e : V × V} {sp : List (V × V)}
+    (hso : Sorted disc (e :: sp)) (hch : Chain root (e :: sp)) : ∀ g ∈ sp, D disc g.2 ≤ D disc e.1 := by
+  intro g hg
+  cases sp with
+  | nil => simp at hg
+  | cons e' r =>
+    rw [hch.1]
+    rcases List.mem_cons.mp hg with hg | hg
+    · rw [hg]; exact Nat.le_refl _
+    · exact Nat.le_of_lt (sorted_head (sorted_tail hso) g hg)
+
+theorem top_pos {disc : List (V × Nat)} {e : V × V} {sp : List (V × V)}
+    (hso : Sorted disc (e :: sp)) (hne : sp ≠ []) : 0 < D disc e.2 := by
+  cases sp with
+  | nil => exact absurd rfl hne
+  | cons e' r => have := sorted_head hso e' (by simp); omega
+
+theorem parent_lt_child {disc : List (V × Nat)} {root : V} {e : V × V} {sp : List (V × V)}
+    (hso : Sorted disc (e :: sp)) (hch : Chain root (e :: sp)) (hne : sp ≠ []) : D disc e.1 < D disc e.2 := by
+  cases sp with
+  | nil => exact absurd rfl hne
+  | cons e' r => rw [hch.1]; exact sorted_head hso e' (by simp)
+
+theorem parent_pos {disc : List (V × Nat)} {root : V} {e : V × V} {sp : List (V × V)}
+    (hso : Sorted disc (e :: sp)) (hch : Chain root (e :: sp)) (hlen : sp.length > 1) : 0 < D disc e.1 := by
+  cases sp with
+  | nil => simp at hlen
+  | cons e' r =>
+    rw [hch.1]
+    exact top_pos (sorted_tail hso) (by intro h; rw [h] at hlen; simp at hlen)
+
+theorem parent_root {root : V} {e : V × V} {sp : List (V × V)}
+    (hch : Chain root (e :: sp)) (hlen : sp.length = 1) : e.1 = root := by
+  match sp, hlen, hch with
+  | [e'], _, hch => rw [hch.1]; exact hch.2.2
+
+/-- a node discovered strictly between the top frame's parent and child is not on the stack -/
+theorem between_off_stack {disc : List (V × Nat)} {root : V} {e : V × V} {sp : List (V × V)} {w : V}
+    (hso : Sorted disc (e :: sp)) (hch : Chain root (e :: sp)) (h1 : D disc e.1 < D disc w) (h2 : D disc w < D disc e.2) :
+    ∀ h ∈ e :: sp, h.2 ≠ w := by
+  intro h hh he
+  rcases List.mem_cons.mp hh with hh | hh
+  · rw [← he, hh] at h2; omega
+  · have := below_le_parent hso hch h hh
+    rw [he] at this; omega
+
+/-! ## low points: witnesses (`Wit`), lower bounds (`LowOK`), no cross edges (`NoCross`), connected subtrees (`Conn`) -/
+
+/-- every low point on the stack is the discovery number of a node seen from the frame's subtree -/
+def WitP (nb : V → List V) (vis : List V) (disc low : List (V × Nat)) (sp : List (V × V)) : Prop :=
+  ∀ e ∈ sp, ∃ u w, u ∈ vis ∧ w ∈ vis ∧ D disc e.2 ≤ D disc u ∧ (w ∈ nb u ∨ w = u) ∧ D disc w = D low e.2
+
+abbrev Wit (nb : V → List V) (s : BSt) : Prop := WitP nb s.visited s.disc s.low (spine s.stack)
+
+theorem wit_init (nb : V → List V) (root : V) : Wit nb (init nb root) := by
+  intro e he
+  simp [init] at he
+  subst he
+  exact ⟨root, root, by simp [init], by simp [init], Nat.le_refl _, Or.inr rfl, rfl⟩
+
+theorem witP_sub {nb : V → List V} {vis : List V} {disc low : List (V × Nat)} {sp sp' : List (V × V)}
+    (hsub : ∀ e ∈ sp', e ∈ sp) (h : WitP nb vis disc low sp) : WitP nb vis disc low sp' :=
+  fun e he => h e (hsub e he)
+
+theorem wit_step (nb : V → List V) (Vs : List V) (root : V) (s : BSt) (h1 : Inv1 nb Vs s) (h4 : Inv4 root s)
+    (hW : Wit nb s) : Wit nb (bstep nb s) := by
+  have hsc := spine_child h1
+  apply bstep_cases
+  · intro _; exact hW
+  · intro f rest hs hlt hp
+    show WitP nb s.visited s.disc s.low (spine (adv f :: rest))
+    rw [spine_adv, ← hs]; exact hW
+  · intro f rest nn hs hlt hnn hp hv hle
+    show WitP nb s.visited s.disc (setKV f.child (min (D s.low f.child) (D s.disc nn)) s.low) (spine (adv f :: rest))
+    rw [spine_adv, ← hs]
+    intro e he
+    obtain ⟨u, w, hu, hw, h1', h2', h3'⟩ := hW e he
+    rw [D_setKV]
+    split
+    · next hec =>
+      by_cases hmin : D s.disc nn ≤ D s.low f.child
+      · refine ⟨f.child, nn, h1.child f (by simp [hs]), hv, by rw [hec]; exact Nat.le_refl _, Or.inl ?_, ?_⟩
+        · rw [← h1.nbrs f (by simp [hs]), hnn]; exact getD_mem hlt
+        · omega
+      · refine ⟨u, w, hu, hw, h1', h2', ?_⟩
+        rw [h3', hec]; omega
+    · exact ⟨u, w, hu, hw, h1', h2', h3'⟩
+  · intro f rest nn hs hlt hnn hp hv hle
+    show WitP nb s.visited s.disc s.low (spine (adv f :: rest))
+    rw [spine_adv, ← hs]; exact hW
+  · intro f rest nn hs hlt hnn hp hv
+    show WitP nb (nn :: s.visited) (setKV nn s.disc.length s.disc) (setKV nn s.disc.length s.low)
+      ((f.child, nn) :: spine (adv f :: rest))
+    rw [spine_adv, ← hs]
+    have hne : ∀ v ∈ s.visited, v ≠ nn := fun v hv' he => hv (he ▸ hv')
+    intro e he
+    rcases List.mem_cons.mp he with he | he
+    · subst he
+      refine ⟨nn, nn, by simp, by simp, Nat.le_refl _, Or.inr rfl, ?_⟩
+      simp only [D_setKV, if_true]
+    · obtain ⟨u, w, hu, hw, h1', h2', h3'⟩ := hW e he
+      refine ⟨u, w, List.mem_cons_of_mem _ hu, List.mem_cons_of_mem _ hw, ?_, h2', ?_⟩
+      · rw [D_setKV, D_setKV, if_neg (hne _ (hsc e he).1), if_neg (hne u hu)]; exact h1'
+      · rw [D_setKV, D_setKV, if_neg (hne _ (hsc e he).1), if_neg (hne w hw)]; exact h3'
+  · intro f rest hs hlt hlen hc
+    show WitP nb s.visited s.disc (setKV f.parent (min (D s.low f.parent) (D s.low f.child)) s.low) (spine rest)
+    have hso := h4.sorted; have hch := h4.chain
+    rw [hs, spine_cons] at hso hch
+    have hpc := parent_lt_child hso hch (by intro h; simp [spine] at h; rw [h] at hlen; simp at hlen)
+    intro e he
+    have he' : e ∈ spine s.stack := by rw [hs]; exact List.mem_cons_of_mem _ he
+    obtain ⟨u, w, hu, hw, h1', h2', h3'⟩ := hW e he'
+    rw [D_setKV]
+    split
+    · next hec =>
+      by_cases hmin : D s.low f.child ≤ D s.low f.parent
+      · obtain ⟨u', w', hu', hw', h1'', h2'', h3''⟩ := hW (f.parent, f.child) (by rw [hs]; simp)
+        refine ⟨u', w', hu', hw', ?_, h2'', ?_⟩
+        · rw [hec]; simp only [] at h1'' hpc; omega
+        · rw [h3'']; simp only []; omega
+      · refine ⟨u, w, hu, hw, h1', h2', ?_⟩
+        rw [h3', hec]; omega
+    · exact ⟨u, w, hu, hw, h1', h2', h3'⟩
+  · intro f rest hs hlt hlen hc
+    show WitP nb s.visited s.disc (setKV f.parent (min (D s.low f.parent) (D s.low f.child)) s.low) (spine rest)
+    have hso := h4.sorted; have hch := h4.chain
+    rw [hs, spine_cons] at hso hch
+    have hpc := parent_lt_child hso hch (by intro h; simp [spine] at h; rw [h] at hlen; simp at hlen)
+    intro e he
+    have he' : e ∈ spine s.stack := by rw [hs]; exact List.mem_cons_of_mem _ he
+    obtain ⟨u, w, hu, hw, h1', h2', h3'⟩ := hW e he'
+    rw [D_setKV]
+    split
+    · next hec =>
+      by_cases hmin : D s.low f.child ≤ D s.low f.parent
+      · obtain ⟨u', w', hu', hw', h1'', h2'', h3''⟩ := hW (f.parent, f.child) (by rw [hs]; simp)
+        refine ⟨u', w', hu', hw', ?_, h2'', ?_⟩
+        · rw [hec]; simp only [] at h1'' hpc; omega
+        · rw [h3'']; simp only []; omega
+      · refine ⟨u, w, hu, hw, h1', h2', ?_⟩
+        rw [h3', hec]; omega
+    · exact ⟨u, w, hu, hw, h1', h2', h3'⟩
+  · intro f rest hs hlt hlen
+    show WitP nb s.visited s.disc s.low (spine rest)
+    exact witP_sub (fun e he => by rw [hs]; exact List.mem_cons_of_mem _ he) hW
+  · intro f hs hlt
+    show WitP nb s.visited s.disc s.low (spine [])
+    intro e he; simp at he
+
+/-- a scanned edge leaving the subtree of a stack frame downwards either goes to the frame's parent or is accounted for
+    in the low point of a frame at or above it -/
+def LowOKP (nb : V → List V) (vis : List V) (disc low : List (V × Nat)) (st : List Frame) : Prop :=
+  ∀ g ∈ spine st, ∀ u w, Scanned nb vis st u w → D disc g.2 ≤ D disc u → D disc w < D disc g.2 →
+    w = g.1 ∨ ∃ h ∈ spine st, D disc g.2 ≤ D disc h.2 ∧ D low h.2 ≤ D disc w
+
+abbrev LowOK (nb : V → List V) (s : BSt) : Prop := LowOKP nb s.visited s.disc s.low s.stack
+
+theorem lowOK_init (nb : V → List V) (root : V) : LowOK nb (init nb root) := by
+  intro g hg u w _ _ h
+  simp [init] at hg
+  subst hg
+  simp [init, D, lookup] at h
+
+theorem lowOK_adv {nb : V → List V} {vis : List V} {disc low low' : List (V × Nat)} {f : Frame} {rest : List Frame}
+    (hold : LowOKP nb vis disc low (f :: rest)) (hle : ∀ c, D low' c ≤ D low c)
+    (hnew : ∀ g ∈ spine (f :: rest), D disc g.2 ≤ D disc f.child → D disc (f.nbrs.getD f.ptr "") < D disc g.2 →
+      f.nbrs.getD f.ptr "" = g.1 ∨
+        ∃ h ∈ spine (f :: rest), D disc g.2 ≤ D disc h.2 ∧ D low' h.2 ≤ D disc (f.nbrs.getD f.ptr "")) :
+    LowOKP nb vis disc low' (adv f :: rest) := by
+  intro g hg u w hsc h1 h2
+  rw [spine_adv] at hg ⊢
+  rcases scanned_adv hsc with hsc | ⟨hu, hw⟩
+  · rcases hold g hg u w hsc h1 h2 with h | ⟨h, hh, h3, h4⟩
+    · exact Or.inl h
+    · exact Or.inr ⟨h, hh, h3, Nat.le_trans (hle _) h4⟩
+  · rw [hu] at h1; rw [hw] at h2 ⊢
+    exact hnew g hg h1 h2
+
+theorem lowOK_step (nb : V → List V) (Vs : List V) (root : V) (s : BSt) (h1 : Inv1 nb Vs s) (h2 : Inv2 nb root s)
+    (h4 : Inv4 root s) (hL : LowOK nb s) : LowOK nb (bstep nb s) := by
+  have hsc := spine_child h1
+  apply bstep_cases
+  · intro _; exact hL
+  · intro f rest hs hlt hp
+    show LowOKP nb s.visited s.disc s.low (adv f :: rest)
+    have hso := h4.sorted; have hch := h4.chain
+    rw [hs, spine_cons] at hso hch
+    unfold LowOK at hL; rw [hs] at hL
+    apply lowOK_adv hL (fun _ => Nat.le_refl _)
+    intro g hg hg1 hg2
+    rw [spine_cons] at hg
+    rcases List.mem_cons.mp hg with hg | hg
+    · left; rw [hg]; exact hp
+    · have := below_le_parent hso hch g hg
+      rw [hp] at hg2; simp only [] at this; omega
+  · intro f rest nn hs hlt hnn hp hv hle
+    show LowOKP nb s.visited s.disc (setKV f.child (min (D s.low f.child) (D s.disc nn)) s.low) (adv f :: rest)
+    unfold LowOK at hL; rw [hs] at hL
+    apply lowOK_adv hL
+    · intro c; rw [D_setKV]; split
+      · next h => rw [h]; omega
+      · exact Nat.le_refl _
+    · intro g hg hg1 hg2
+      right
+      refine ⟨(f.parent, f.child), by simp, hg1, ?_⟩
+      rw [D_setKV, if_pos rfl, ← hnn]; omega
+  · intro f rest nn hs hlt hnn hp hv hle
+    show LowOKP nb s.visited s.disc s.low (adv f :: rest)
+    unfold LowOK at hL; rw [hs] at hL
+    apply lowOK_adv hL (fun _ => Nat.le_refl _)
+    intro g hg hg1 hg2
+    rw [← hnn] at hg2; omega
+  · intro f rest nn hs hlt hnn hp hv
+    show LowOKP nb (nn :: s.visited) (setKV nn s.disc.length s.disc) (setKV nn s.disc.length s.low)
+      (⟨f.child, nn, 0, nb nn⟩ :: adv f :: rest)
+    have hne : ∀ v ∈ s.visited, v ≠ nn := fun v hv' he => hv (he ▸ hv')
+    unfold LowOK at hL
+    intro g hg u w hscan hg1 hg2
+    obtain ⟨hun, hscan'⟩ := scanned_push hscan
+    have huv : u ∈ s.visited := by
+      rcases List.mem_cons.mp hscan.1 with h | h
+      · exact absurd h hun
+      · exact h
+    rw [spine_cons, spine_adv, ← hs] at hg ⊢
+    rw [D_setKV, D_setKV, if_neg hun] at hg1
+    rcases List.mem_cons.mp hg with hg | hg
+    · exfalso
+      rw [hg] at hg1; simp only [if_true] at hg1
+      have := h4.dlt u huv; omega
+    · have hgv := (hsc g hg).1
+      rw [if_neg (hne _ hgv)] at hg1
+      rw [D_setKV, D_setKV, if_neg (hne _ hgv)] at hg2
+      rw [← hs] at hscan'
+      rcases hscan' with hscan' | ⟨_, hw⟩
+      · have hwv : w ∈ s.visited := h2.scan u w hscan'
+        rw [if_neg (hne w hwv)] at hg2
+        rcases hL g hg u w hscan' hg1 hg2 with h | ⟨h, hh, h3, h4'⟩
+        · exact Or.inl h
+        · right
+          have hhv := (hsc h hh).1
+          refine ⟨h, List.mem_cons_of_mem _ hh, ?_, ?_⟩
+          · rw [D_setKV, D_setKV, if_neg (hne _ hgv), if_neg (hne _ hhv)]; exact h3
+          · rw [D_setKV, D_setKV, if_neg (hne _ hhv), if_neg (hne w hwv)]; exact h4'
+      · exfalso
+        rw [hw, ← hnn] at hg2; simp only [if_true] at hg2
+        have := h4.dlt _ hgv; omega
+  · intro f rest hs hlt hlen hc
+    show LowOKP nb s.visited s.disc (setKV f.parent (min (D s.low f.parent) (D s.low f.child)) s.low) rest
+    have hso := h4.sorted; have hch := h4.chain
+    rw [hs, spine_cons] at hso hch
+    unfold LowOK at hL; rw [hs] at hL
+    intro g hg u w hscan hg1 hg2
+    have hscan' := scanned_pop (h1.nbrs f (by simp [hs])) hlt hscan
+    rcases hL g (by rw [spine_cons]; exact List.mem_cons_of_mem _ hg) u w hscan' hg1 hg2 with h | ⟨h, hh, h3, h4'⟩
+    · exact Or.inl h
+    · right
+      rw [spine_cons] at hh
+      rcases List.mem_cons.mp hh with hh | hh
+      · cases hrest : rest with
+        | nil => rw [hrest] at hlen; simp at hlen
+        | cons g0 r =>
+          rw [hrest, spine_cons] at hch hg hso
+          refine ⟨(g0.parent, g0.child), by simp, ?_, ?_⟩
+          · have := below_le_parent hso hch g hg
+            rw [hch.1] at this; exact this
+          · rw [D_setKV, if_pos hch.1.symm]
+            rw [hh] at h4'; simp only [] at h4'; omega
+      · refine ⟨h, hh, h3, ?_⟩
+        rw [D_setKV]; split
+        · next he => rw [he] at h4'; omega
+        · exact h4'
+  · intro f rest hs hlt hlen hc
+    show LowOKP nb s.visited s.disc (setKV f.parent (min (D s.low f.parent) (D s.low f.child)) s.low) rest
+    have hso := h4.sorted; have hch := h4.chain
+    rw [hs, spine_cons] at hso hch
+    unfold LowOK at hL; rw [hs] at hL
+    intro g hg u w hscan hg1 hg2
+    have hscan' := scanned_pop (h1.nbrs f (by simp [hs])) hlt hscan
+    rcases hL g (by rw [spine_cons]; exact List.mem_cons_of_mem _ hg) u w hscan' hg1 hg2 with h | ⟨h, hh, h3, h4'⟩
+    · exact Or.inl h
+    · right
+      rw [spine_cons] at hh
+      rcases List.mem_cons.mp hh with hh | hh
+      · cases hrest : rest with
+        | nil => rw [hrest] at hlen; simp at hlen
+        | cons g0 r =>
+          rw [hrest, spine_cons] at hch hg hso
+          refine ⟨(g0.parent, g0.child), by simp, ?_, ?_⟩
+          · have := below_le_parent hso hch g hg
+            rw [hch.1] at this; exact this
+          · rw [D_setKV, if_pos hch.1.symm]
+            rw [hh] at h4'; simp only [] at h4'; omega
+      · refine ⟨h, hh, h3, ?_⟩
+        rw [D_setKV]; split
+        · next he => rw [he] at h4'; omega
+        · exact h4'
+  · intro f rest hs hlt hlen
+    show LowOKP nb s.visited s.disc s.low rest
+    have hch := h4.chain
+    rw [hs, spine_cons] at hch
+    intro g hg u w hscan hg1 hg2
+    exfalso
+    match rest, hlen, hch, hg with
+    | [g0], _, hch, hg =>
+      simp at hg
+      rw [hg] at hg2; simp only [] at hg2
+      have : g0.child = root := hch.2.2
+      rw [this, h4.droot] at hg2; omega
+  · intro f hs hlt
+    show LowOKP nb s.visited s.disc s.low []
+    intro g hg; simp at hg
+
+/-- a finished node has no neighbour inside the subtree of a stack frame discovered after it -/
+def NoCrossP (nb : V → List V) (vis : List V) (disc : List (V × Nat)) (sp : List (V × V)) : Prop :=
+  ∀ w ∈ vis, (∀ e ∈ sp, e.2 ≠ w) → ∀ x ∈ nb w, ∀ g ∈ sp, D disc w < D disc g.2 → D disc x < D disc g.2
+
+abbrev NoCross (nb : V → List V) (s : BSt) : Prop := NoCrossP nb s.visited s.disc (spine s.stack)
+
+theorem noCross_init (nb : V → List V) (root : V) : NoCross nb (init nb root) := by
+  intro w hw hfin
+  simp [init] at hw hfin
+  exact absurd hw.symm hfin
+
+theorem noCross_step (nb : V → List V) (Vs : List V) (root : V) (s : BSt) (h1 : Inv1 nb Vs s) (h2 : Inv2 nb root s)
+    (h4 : Inv4 root s) (hX : NoCross nb s) : NoCross nb (bstep nb s) := by
+  have hsc := spine_child h1
+  have adv_case : ∀ f rest, s.stack = f :: rest → NoCrossP nb s.visited s.disc (spine (adv f :: rest)) := by
+    intro f rest hs; rw [spine_adv, ← hs]; exact hX
+  have pop_case : ∀ f rest, s.stack = f :: rest → NoCrossP nb s.visited s.disc (spine rest) := by
+    intro f rest hs
+    have hso := h4.sorted
+    rw [hs, spine_cons] at hso
+    unfold NoCross at hX; rw [hs, spine_cons] at hX
+    intro w hw hfin x hx g hg hlt
+    by_cases hwf : f.child = w
+    · have := sorted_head hso g hg
+      rw [← hwf] at hlt; simp only [] at this; omega
+    · apply hX w hw _ x hx g (List.mem_cons_of_mem _ hg) hlt
+      intro e he
+      rcases List.mem_cons.mp he with he | he
+      · rw [he]; exact hwf
+      · exact hfin e he
+  apply bstep_cases
+  · intro _; exact hX
+  · intro f rest hs hlt hp; exact adv_case f rest hs
+  · intro f rest nn hs hlt hnn hp hv hle; exact adv_case f rest hs
+  · intro f rest nn hs hlt hnn hp hv hle; exact adv_case f rest hs
+  · intro f rest nn hs hlt hnn hp hv
+    show NoCrossP nb (nn :: s.visited) (setKV nn s.disc.length s.disc) ((f.child, nn) :: spine (adv f :: rest))
+    rw [spine_adv, ← hs]
+    have hne : ∀ v ∈ s.visited, v ≠ nn := fun v hv' he => hv (he ▸ hv')
+    intro w hw hfin x hx g hg hlt'
+    have hwn : w ≠ nn := fun h => hfin (f.child, nn) (by simp) h.symm
+    have hwv : w ∈ s.visited := by
+      rcases List.mem_cons.mp hw with h | h
+      · exact absurd h hwn
+      · exact h
+    have hfin' : ∀ e ∈ spine s.stack, e.2 ≠ w := fun e he => hfin e (List.mem_cons_of_mem _ he)
+    have hxv : x ∈ s.visited := by
+      apply h2.scan w x
+      refine ⟨hwv, hx, ?_⟩
+      intro g hg hgw
+      exact absurd hgw (hfin' _ (mem_spine hg))
+    rw [D_setKV, if_neg (hne x hxv)]
+    rw [D_setKV, if_neg hwn] at hlt'
+    rcases List.mem_cons.mp hg with hg | hg
+    · rw [hg, D_setKV]; simp only [if_true]; exact h4.dlt x hxv
+    · have hgv := (hsc g hg).1
+      rw [D_setKV, if_neg (hne _ hgv)] at hlt' ⊢
+      exact hX w hwv hfin' x hx g hg hlt'
+  · intro f rest hs hlt hlen hc; exact pop_case f rest hs
+  · intro f rest hs hlt hlen hc; exact pop_case f rest hs
+  · intro f rest hs hlt hlen; exact pop_case f rest hs
+  · intro f hs hlt; exact pop_case f [] hs
+
+/-- the subtree of a stack frame is connected to the frame's child without passing through the frame's parent -/
+def ConnP (nb : V → List V) (vis : List V) (disc : List (V × Nat)) (sp : List (V × V)) : Prop :=
+  ∀ g ∈ sp, g.2 ≠ g.1 → ∀ y ∈ vis, D disc g.2 ≤ D disc y → Reach (nbWithout nb g.1) g.2 y
+
+abbrev Conn (nb : V → List V) (s : BSt) : Prop := ConnP nb s.visited s.disc (spine s.stack)
+
+theorem conn_init (nb : V → List V) (root : V) : Conn nb (init nb root) := by
+  intro g hg hne
+  simp [init] at hg
+  subst hg
+  exact absurd rfl hne
+
+theorem conn_step (nb : V → List V) (Vs : List V) (root : V) (s : BSt) (h1 : Inv1 nb Vs s)
+    (h4 : Inv4 root s) (hT : Conn nb s) : Conn nb (bstep nb s) := by
+  have hsc := spine_child h1
+  have adv_case : ∀ f rest, s.stack = f :: rest → ConnP nb s.visited s.disc (spine (adv f :: rest)) := by
+    intro f rest hs; rw [spine_adv, ← hs]; exact hT
+  have pop_case : ∀ f rest, s.stack = f :: rest → ConnP nb s.visited s.disc (spine rest) := by
+    intro f rest hs
+    unfold Conn at hT; rw [hs, spine_cons] at hT
+    intro g hg
+    exact hT g (List.mem_cons_of_mem _ hg)
+  apply bstep_cases
+  · intro _; exact hT
+  · intro f rest hs hlt hp; exact adv_case f rest hs
+  · intro f rest nn hs hlt hnn hp hv hle; exact adv_case f rest hs
+  · intro f rest nn hs hlt hnn hp hv hle; exact adv_case f rest hs
+  · intro f rest nn hs hlt hnn hp hv
+    show ConnP nb (nn :: s.visited) (setKV nn s.disc.length s.disc) ((f.child, nn) :: spine (adv f :: rest))
+    rw [spine_adv, ← hs]
+    have hne : ∀ v ∈ s.visited, v ≠ nn := fun v hv' he => hv (he ▸ hv')
+    have hso := h4.sorted; have hch := h4.chain
+    intro g hg hgne y hy hle
+    rcases List.mem_cons.mp hg with hg | hg
+    · rw [hg] at hle ⊢; simp only [] at hle ⊢
+      rcases List.mem_cons.mp hy with hy | hy
+      · rw [hy]; exact Reach.refl _
+      · exfalso
+        rw [D_setKV, D_setKV, if_neg (hne y hy)] at hle; simp only [if_true] at hle
+        have := h4.dlt y hy; omega
+    · have hgv := hsc g hg
+      rw [D_setKV, if_neg (hne _ hgv.1)] at hle
+      rcases List.mem_cons.mp hy with hy | hy
+      · rw [hy]
+        have hfv : f.child ∈ s.visited := h1.child f (by simp [hs])
+        have hgf : D s.disc g.2 ≤ D s.disc f.child := by
+          rw [hs, spine_cons] at hg hso
+          rcases List.mem_cons.mp hg with hg | hg
+          · rw [hg]; exact Nat.le_refl _
+          · exact Nat.le_of_lt (sorted_head hso g hg)
+        have hr := hT g hg hgne f.child hfv hgf
+        have hpc : D s.disc g.1 < D s.disc g.2 := by
+          rcases frame_cases _ hso hch g hg with h | h
+          · exact absurd (h.2.trans h.1.symm) hgne
+          · exact h
+        apply Reach.step hr
+        apply nbWithout_mem.mpr
+        refine ⟨?_, ?_, (hne _ hgv.2).symm⟩
+        · intro he; rw [he] at hgf; omega
+        · rw [← h1.nbrs f (by simp [hs]), hnn]; exact getD_mem hlt
+      · rw [D_setKV, if_neg (hne y hy)] at hle
+        exact hT g hg hgne y hy hle
+  · intro f rest hs hlt hlen hc; exact pop_case f rest hs
+  · intro f rest hs hlt hlen hc; exact pop_case f rest hs
+  · intro f rest hs hlt hlen; exact pop_case f rest hs
+  · intro f hs hlt; exact pop_case f [] hs
+
+/-! ## RUNG 4: soundness of the articulation points -/
+
+/-- when an exhausted frame (parent p, child c) is popped with low[c] ≥ disc[p], no edge leaves the subtree of c
+    except to p -/
+theorem closure (nb : V → List V) (Vs : List V) (root : V) (hsym : ∀ a b, b ∈ nb a → a ∈ nb b) (s : BSt)
+    (h1 : Inv1 nb Vs s) (h2 : Inv2 nb root s) (h4 : Inv4 root s) (hL : LowOK nb s) (hX : NoCross nb s)
+    (f : Frame) (rest : List Frame) (hs : s.stack = f :: rest) (hlt : ¬ f.ptr < f.nbrs.length)
+    (hlow : D s.disc f.parent ≤ D s.low f.child) :
+    ∀ u ∈ s.visited, D s.disc f.child ≤ D s.disc u → ∀ w ∈ nb u, w ≠ f.parent →
+      w ∈ s.visited ∧ D s.disc f.child ≤ D s.disc w := by
+  have hso := h4.sorted; have hch := h4.chain
+  rw [hs, spine_cons] at hso hch
+  intro u hu hcu w hw hwp
+  have hscan : Scanned nb s.visited s.stack u w := by
+    refine ⟨hu, hw, ?_⟩
+    intro g hg hgu
+    rw [hs] at hg
+    rcases List.mem_cons.mp hg with hg | hg
+    · subst hg; rw [List.take_of_length_le (by omega), h1.nbrs g (by simp [hs]), hgu]; exact hw
+    · exfalso
+      have := sorted_head hso _ (mem_spine hg)
+      rw [← hgu] at hcu; simp only [] at this; omega
+  have hwv : w ∈ s.visited := h2.scan u w hscan
+  refine ⟨hwv, ?_⟩
+  apply Decidable.byContradiction
+  intro hnle
+  have hwc : D s.disc w < D s.disc f.child := by omega
+  have hpw : D s.disc f.parent ≤ D s.disc w := by
+    rcases hL (f.parent, f.child) (by rw [hs]; simp) u w hscan hcu hwc with h | ⟨h, hh, h3, h4'⟩
+    · exact absurd h hwp
+    · rw [hs, spine_cons] at hh
+      rcases List.mem_cons.mp hh with hh | hh
+      · rw [hh] at h4'; simp only [] at h4'; omega
+      · have := sorted_head hso h hh; simp only [] at this h3; omega
+  have hpv : f.parent ∈ s.visited := h1.parent f (by simp [hs])
+  have hpw' : D s.disc f.parent < D s.disc w := by
+    rcases Nat.lt_or_ge (D s.disc f.parent) (D s.disc w) with h | h
+    · exact h
+    · exact absurd (h4.inj w hwv f.parent hpv (by omega)) hwp
+  have hfin : ∀ e ∈ spine s.stack, e.2 ≠ w := by
+    rw [hs, spine_cons]
+    exact between_off_stack hso hch hpw' hwc
+  have := hX w hwv hfin u (hsym u w hw) (f.parent, f.child) (by rw [hs]; simp) hwc
+  simp only [] at this; omega
+
+theorem reach_closed {nb : V → List V} {p c : V} {P : V → Prop}
+    (hcl : ∀ u, P u → ∀ w ∈ nb u, w ≠ p → P w) (hc : P c) : ∀ y, Reach (nbWithout nb p) c y → P y := by
+  intro y hr
+  induction hr with
+  | refl => exact hc
+  | step _ hmem ih =>
+    obtain ⟨_, h2, h3⟩ := nbWithout_mem.mp hmem
+    exact hcl _ ih _ h2 h3
+
+structure Inv6 (nb : V → List V) (Vs : List V) (root : V) (s : BSt) : Prop where
+  r1 : s.rootChildren ≥ 1 → ∃ x ∈ Vs, x ≠ root ∧
+    ∀ y, Reach (nbWithout nb root) x y → y ∈ s.visited ∧ ∀ e ∈ spine s.stack, e.2 ≠ y
+  r2 : s.rootChildren ≥ 2 → isCut nb Vs root = true
+  aps : ∀ a ∈ s.aps, isCut nb Vs a = true
+
+theorem inv6_init (nb : V → List V) (Vs : List V) (root : V) : Inv6 nb Vs root (init nb root) := by
+  constructor <;> simp [init]
+
+theorem inv6_step (nb : V → List V) (Vs : List V) (hu : Undirected nb Vs) (hd : Vs.Nodup) (root : V) (hr : root ∈ Vs)
+    (s : BSt) (h1 : Inv1 nb Vs s) (h2 : Inv2 nb root s) (h4 : Inv4 root s) (hL : LowOK nb s) (hX : NoCross nb s)
+    (h : Inv6 nb Vs root s) : Inv6 nb Vs root (bstep nb s) := by
+  obtain ⟨hr1, hr2, haps⟩ := h
+  have hsc := spine_child h1
+  have r1_sub : ∀ (n : Nat) (vis : List V) (sp : List (V × V)), n ≥ 1 → (n ≥ 1 → s.rootChildren ≥ 1) →
+      (∀ y ∈ s.visited, y ∈ vis) →
+      (∀ y ∈ s.visited, (∀ e ∈ spine s.stack, e.2 ≠ y) → ∀ e ∈ sp, e.2 ≠ y) →
+      ∃ x ∈ Vs, x ≠ root ∧ ∀ y, Reach (nbWithout nb root) x y → y ∈ vis ∧ ∀ e ∈ sp, e.2 ≠ y := by
+    intro n vis sp hn hn' hvis hsp
+    obtain ⟨x, hx1, hx2, hx3⟩ := hr1 (hn' hn)
+    exact ⟨x, hx1, hx2, fun y hy => ⟨hvis y (hx3 y hy).1, hsp y (hx3 y hy).1 (hx3 y hy).2⟩⟩
+  have tail_sub : ∀ f rest, s.stack = f :: rest →
+      ∀ y ∈ s.visited, (∀ e ∈ spine s.stack, e.2 ≠ y) → ∀ e ∈ spine rest, e.2 ≠ y := by
+    intro f rest hs y _ hy e he
+    exact hy e (by rw [hs, spine_cons]; exact List.mem_cons_of_mem _ he)
+  have adv_sub : ∀ f rest, s.stack = f :: rest →
+      ∀ y ∈ s.visited, (∀ e ∈ spine s.stack, e.2 ≠ y) → ∀ e ∈ spine (adv f :: rest), e.2 ≠ y := by
+    intro f rest hs y _ hy e he
+    exact hy e (by rw [hs, ← spine_adv]; exact he)
+  apply bstep_cases
+  · intro _; exact ⟨hr1, hr2, haps⟩
+  · intro f rest hs hlt hp
+    exact ⟨fun hn => r1_sub _ _ _ hn id (fun _ h => h) (adv_sub f rest hs), hr2, haps⟩
+  · intro f rest nn hs hlt hnn hp hv hle
+    exact ⟨fun hn => r1_sub _ _ _ hn id (fun _ h => h) (adv_sub f rest hs), hr2, haps⟩
+  · intro f rest nn hs hlt hnn hp hv hle
+    exact ⟨fun hn => r1_sub _ _ _ hn id (fun _ h => h) (adv_sub f rest hs), hr2, haps⟩
+  · intro f rest nn hs hlt hnn hp hv
+    refine ⟨fun hn => r1_sub _ _ _ hn id (fun _ h => List.mem_cons_of_mem _ h) ?_, hr2, haps⟩
+    intro y hy hfin e he
+    change e ∈ (f.child, nn) :: spine (adv f :: rest) at he
+    rcases List.mem_cons.mp he with he | he
+    · rw [he]; intro h; exact hv (by simp only [] at h; rw [h]; exact hy)
+    · exact adv_sub f rest hs y hy hfin e he
+  · intro f rest hs hlt hlen hc
+    refine ⟨fun hn => r1_sub _ _ _ hn id (fun _ h => h) (tail_sub f rest hs), hr2, ?_⟩
+    intro a ha
+    rcases mem_insertSet ha with ha | ha
+    · rw [ha]
+      have hso := h4.sorted; have hch := h4.chain
+      rw [hs, spine_cons] at hso hch
+      have hrne : spine rest ≠ [] := by intro h; simp [spine] at h; rw [h] at hlen; simp at hlen
+      have hpc := parent_lt_child hso hch hrne
+      have hpp := parent_pos hso hch (by simpa [spine] using hlen)
+      simp only [] at hpc hpp
+      have hpv : f.parent ∈ s.visited := h1.parent f (by simp [hs])
+      have hcv : f.child ∈ s.visited := h1.child f (by simp [hs])
+      apply (C15.isCut_iff nb Vs hu hd f.parent (h1.sub _ hpv)).mpr
+      refine ⟨f.child, root, h1.sub _ hcv, hr, ?_, ?_, ?_⟩
+      · intro he; rw [he] at hpc; omega
+      · intro he; rw [← he, h4.droot] at hpp; omega
+      · intro hreach
+        have hcl := closure nb Vs root hu.symm s h1 h2 h4 hL hX f rest hs hlt hc
+        have := reach_closed (P := fun y => y ∈ s.visited ∧ D s.disc f.child ≤ D s.disc y)
+          (fun u hu' w hw hwp => hcl u hu'.1 hu'.2 w hw hwp) ⟨hcv, Nat.le_refl _⟩ root hreach
+        rw [h4.droot] at this; omega
+    · exact haps a ha
+  · intro f rest hs hlt hlen hc
+    exact ⟨fun hn => r1_sub _ _ _ hn id (fun _ h => h) (tail_sub f rest hs), hr2, haps⟩
+  · intro f rest hs hlt hlen
+    have hso := h4.sorted; have hch := h4.chain
+    rw [hs, spine_cons] at hso hch
+    have hrne : spine rest ≠ [] := by intro h; simp [spine] at h; rw [h] at hlen; simp at hlen
+    have hcpos := top_pos hso hrne
+    have hproot : f.parent = root := parent_root hch (by simpa [spine] using hlen)
+    simp only [] at hcpos
+    have hcv : f.child ∈ s.visited := h1.child f (by simp [hs])
+    have hcr : f.child ≠ root := by intro he; rw [he, h4.droot] at hcpos; omega
+    refine ⟨?_, ?_, haps⟩
+    · intro _
+      by_cases hrc : s.rootChildren ≥ 1
+      · exact r1_sub 1 _ _ (Nat.le_refl _) (fun _ => hrc) (fun _ h => h) (tail_sub f rest hs)
+      · refine ⟨f.child, h1.sub _ hcv, hcr, ?_⟩
+        intro y hreach
+        have hcl := closure nb Vs root hu.symm s h1 h2 h4 hL hX f rest hs hlt
+          (by rw [hproot, h4.droot]; exact Nat.zero_le _)
+        rw [hproot] at hcl
+        have := reach_closed (P := fun y => y ∈ s.visited ∧ D s.disc f.child ≤ D s.disc y)
+          (fun u hu' w hw hwp => hcl u hu'.1 hu'.2 w hw hwp) ⟨hcv, Nat.le_refl _⟩ y hreach
+        refine ⟨this.1, ?_⟩
+        intro e he hey
+        have h' := sorted_head hso e he
+        rw [hey] at h'; simp only [] at h'; omega
+    · intro hn
+      have hn' : s.rootChildren ≥ 1 := by simp only [] at hn; omega
+      obtain ⟨x, hx1, hx2, hx3⟩ := hr1 hn'
+      apply (C15.isCut_iff nb Vs hu hd root hr).mpr
+      refine ⟨x, f.child, hx1, h1.sub _ hcv, hx2, hcr, ?_⟩
+      intro hreach
+      exact (hx3 _ hreach).2 (f.parent, f.child) (by rw [hs]; simp) rfl
+  · intro f hs hlt
+    exact ⟨fun hn => r1_sub _ _ _ hn id (fun _ h => h) (tail_sub f [] hs), hr2, haps⟩
+
+structure InvS (nb : V → List V) (Vs : List V) (root : V) (s : BSt) : Prop where
+  i1 : Inv1 nb Vs s
+  i2 : Inv2 nb root s
+  i4 : Inv4 root s
+  low : LowOK nb s
+  nocross : NoCross nb s
+  i6 : Inv6 nb Vs root s
+
+theorem invS_bgo (nb : V → List V) (Vs : List V) (hu : Undirected nb Vs) (hd : Vs.Nodup) (root : V) (hr : root ∈ Vs)
+    (n : Nat) : InvS nb Vs root (bgo nb n (init nb root)) := by
+  apply bgo_inv nb (InvS nb Vs root)
+  · intro s h
+    exact ⟨inv1_step nb Vs hu s h.i1, inv2_step nb Vs root s h.i1 h.i2, inv4_step nb Vs root s h.i1 h.i2 h.i4,
+      lowOK_step nb Vs root s h.i1 h.i2 h.i4 h.low, noCross_step nb Vs root s h.i1 h.i2 h.i4 h.nocross,
+      inv6_step nb Vs hu hd root hr s h.i1 h.i2 h.i4 h.low h.nocross h.i6⟩
+  · exact ⟨inv1_init nb Vs root hr, inv2_init nb root, inv4_init nb root, lowOK_init nb root, noCross_init nb root,
+      inv6_init nb Vs root⟩
+
+theorem aps_sound (nb : V → List V) (Vs : List V) (hu : Undirected nb Vs) (hd : Vs.Nodup) (root : V) (hr : root ∈ Vs) :
+    ∀ a ∈ (biccsFrom nb root (biccFuel nb Vs)).2, isCut nb Vs a = true := by
+  have h := (invS_bgo nb Vs hu hd root hr (biccFuel nb Vs)).i6
+  intro a ha
+  change a ∈ (if (bgo nb (biccFuel nb Vs) (init nb root)).rootChildren > 1 then
+    insertSet root (bgo nb (biccFuel nb Vs) (init nb root)).aps else (bgo nb (biccFuel nb Vs) (init nb root)).aps) at ha
+  split at ha
+  · next hgt =>
+    rcases mem_insertSet ha with h' | h'
+    · rw [h']; exact h.r2 hgt
+    · exact h.aps a h'
+  · exact h.aps a ha
+
+/-! ## RUNG 5: completeness of the articulation points -/
+
+/-- for a fixed non-root node `a`: unless `a` has been reported, every discovered node outside the subtree of the
+    child of `a` that is being explored is connected to the root avoiding `a` -/
+def CaP (nb : V → List V) (root a : V) (aps vis : List V) (disc : List (V × Nat)) (sp : List (V × V)) : Prop :=
+  a ∈ aps ∨ ∀ y ∈ vis, y ≠ a → (∀ g ∈ sp, g.1 = a → D disc y < D disc g.2) → Reach (nbWithout nb a) root y
+
+abbrev Ca (nb : V → List V) (root a : V) (s : BSt) : Prop := CaP nb root a s.aps s.visited s.disc (spine s.stack)
+
+theorem ca_init (nb : V → List V) (root a : V) : Ca nb root a (init nb root) := by
+  right
+  intro y hy _ _
+  simp [init] at hy
+  rw [hy]; exact Reach.refl _
+
+theorem ca_step (nb : V → List V) (Vs : List V) (hu : Undirected nb Vs) (root a : V) (har : a ≠ root)
+    (s : BSt) (h1 : Inv1 nb Vs s) (h4 : Inv4 root s) (hW : Wit nb s) (hT : Conn nb s)
+    (hC : Ca nb root a s) : Ca nb root a (bstep nb s) := by
+  have hsc := spine_child h1
+  have adv_case : ∀ f rest, s.stack = f :: rest → CaP nb root a s.aps s.visited s.disc (spine (adv f :: rest)) := by
+    intro f rest hs; rw [spine_adv, ← hs]; exact hC
+  -- popping a frame whose parent is not `a`
+  have pop_other : ∀ f rest (aps' : List V), s.stack = f :: rest → f.parent ≠ a → (∀ x ∈ s.aps, x ∈ aps') →
+      CaP nb root a aps' s.visited s.disc (spine rest) := by
+    intro f rest aps' hs hpa haps
+    rcases hC with hC | hC
+    · exact Or.inl (haps a hC)
+    · right
+      intro y hy hya hyp
+      apply hC y hy hya
+      rw [hs, spine_cons]
+      intro g hg hga
+      rcases List.mem_cons.mp hg with hg | hg
+      · rw [hg] at hga; exact absurd hga hpa
+      · exact hyp g hg hga
+  apply bstep_cases
+  · intro _; exact hC
+  · intro f rest hs hlt hp; exact adv_case f rest hs
+  · intro f rest nn hs hlt hnn hp hv hle; exact adv_case f rest hs
+  · intro f rest nn hs hlt hnn hp hv hle; exact adv_case f rest hs
+  · intro f rest nn hs hlt hnn hp hv
+    show CaP nb root a s.aps (nn :: s.visited) (setKV nn s.disc.length s.disc) ((f.child, nn) :: spine (adv f :: rest))
+    rw [spine_adv, ← hs]
+    have hne : ∀ v ∈ s.visited, v ≠ nn := fun v hv' he => hv (he ▸ hv')
+    rcases hC with hC | hC
+    · exact Or.inl hC
+    · right
+      intro y hy hya hyp
+      rcases List.mem_cons.mp hy with hy | hy
+      · rw [hy] at hya hyp ⊢
+        have hfa : f.child ≠ a := by
+          intro he
+          have := hyp (f.child, nn) (by simp) he
+          simp only [] at this; omega
+        have hfv : f.child ∈ s.visited := h1.child f (by simp [hs])
+        have hrf : Reach (nbWithout nb a) root f.child := by
+          apply hC f.child hfv hfa
+          intro g hg hga
+          exfalso
+          have := hyp g (List.mem_cons_of_mem _ hg) hga
+          have hgv := (hsc g hg).1
+          rw [D_setKV, D_setKV, if_neg (hne _ hgv)] at this; simp only [if_true] at this
+          have := h4.dlt _ hgv; omega
+        apply Reach.step hrf
+        apply nbWithout_mem.mpr
+        refine ⟨hfa, ?_, hya⟩
+        rw [← h1.nbrs f (by simp [hs]), hnn]; exact getD_mem hlt
+      · apply hC y hy hya
+        intro g hg hga
+        have := hyp g (List.mem_cons_of_mem _ hg) hga
+        rw [D_setKV, D_setKV, if_neg (hne _ (hsc g hg).1), if_neg (hne y hy)] at this
+        exact this
+  · intro f rest hs hlt hlen hc
+    show CaP nb root a (insertSet f.parent s.aps) s.visited s.disc (spine rest)
+    by_cases hpa : f.parent = a
+    · left; rw [← hpa]; exact mem_insertSet_self _ _
+    · exact pop_other f rest _ hs hpa (fun x hx => mem_insertSet_of_mem hx)
+  · intro f rest hs hlt hlen hc
+    show CaP nb root a s.aps s.visited s.disc (spine rest)
+    by_cases hpa : f.parent = a
+    · rcases hC with hC | hC
+      · exact Or.inl hC
+      · right
+        have hso := h4.sorted; have hch := h4.chain
+        have hfc := frame_cases _ hso hch
+        rw [hs, spine_cons] at hso hch
+        have hrne : spine rest ≠ [] := by intro h; simp [spine] at h; rw [h] at hlen; simp at hlen
+        have hpc := parent_lt_child hso hch hrne
+        simp only [] at hpc
+        have hu' := nbWithout_undirected hu a
+        have hcne : f.child ≠ f.parent := by intro he; rw [he] at hpc; omega
+        have hTf := hT (f.parent, f.child) (by rw [hs]; simp) hcne
+        simp only [] at hTf
+        rw [hpa] at hTf hpc hc
+        -- the child of `a` reaches the root avoiding `a`, through the witness of its low point
+        have hroot : Reach (nbWithout nb a) root f.child := by
+          obtain ⟨u, w, huv, hwv, hcu, hwu, hdw⟩ := hW (f.parent, f.child) (by rw [hs]; simp)
+          simp only [] at hcu hdw
+          have hua : u ≠ a := by intro he; rw [he] at hcu; omega
+          have hwa : w ≠ a := by intro he; rw [he] at hdw; omega
+          have hwnb : w ∈ nb u := by
+            rcases hwu with h | h
+            · exact h
+            · rw [h] at hdw; omega
+          have hrw : Reach (nbWithout nb a) root w := by
+            apply hC w hwv hwa
+            intro g hg hga
+            rcases hfc g hg with h | h
+            · exact absurd (hga.symm.trans h.1) har
+            · rw [hga] at h; omega
+          have hru : Reach (nbWithout nb a) root u :=
+            Reach.step hrw (nbWithout_mem.mpr ⟨hwa, hu.symm u w hwnb, hua⟩)
+          exact Reach.trans hru (Reach.symm hu'.symm (hTf u huv hcu))
+        intro y hy hya hyp
+        by_cases hyc : D s.disc y < D s.disc f.child
+        · apply hC y hy hya
+          rw [hs, spine_cons]
+          intro g hg hga
+          rcases List.mem_cons.mp hg with hg | hg
+          · rw [hg]; exact hyc
+          · exact hyp g hg hga
+        · exact Reach.trans hroot (hTf y hy (by omega))
+    · exact pop_other f rest _ hs hpa (fun x hx => hx)
+  · intro f rest hs hlt hlen
+    show CaP nb root a s.aps s.visited s.disc (spine rest)
+    have hch := h4.chain
+    rw [hs, spine_cons] at hch
+    have hproot : f.parent = root := parent_root hch (by simpa [spine] using hlen)
+    exact pop_other f rest _ hs (by rw [hproot]; exact fun h => har h.symm) (fun x hx => hx)
+  · intro f hs hlt
+    show CaP nb root a s.aps s.visited s.disc (spine [])
+    have hch := h4.chain
+    rw [hs] at hch
+    exact pop_other f [] _ hs (by rw [show f.parent = root from hch.1]; exact fun h => har h.symm) (fun x hx => hx)
+
+/-- the root: while no child of the root is finished everything hangs below the first child; after exactly one
+    finished child (and nothing else started) everything but the root is connected avoiding the root -/
+structure Cr (nb : V → List V) (root : V) (s : BSt) : Prop where
+  c0 : s.rootChildren = 0 → ∀ y ∈ s.visited, y ≠ root →
+    ∃ g ∈ spine s.stack, g.1 = root ∧ g.2 ≠ root ∧ D s.disc g.2 ≤ D s.disc y
+  c1 : s.rootChildren = 1 → s.stack.length ≤ 1 → ∃ x, ∀ y ∈ s.visited, y ≠ root → Reach (nbWithout nb root) x y
+
+theorem cr_init (nb : V → List V) (root : V) : Cr nb root (init nb root) := by
+  constructor
+  · intro _ y hy hne; simp [init] at hy; exact absurd hy hne
+  · intro h; simp [init] at h
+
+theorem cr_step (nb : V → List V) (Vs : List V) (root : V)
+    (s : BSt) (h1 : Inv1 nb Vs s) (h4 : Inv4 root s) (hT : Conn nb s)
+    (hC : Cr nb root s) : Cr nb root (bstep nb s) := by
+  obtain ⟨hc0, hc1⟩ := hC
+  have hsc := spine_child h1
+  have adv_case : ∀ f rest, s.stack = f :: rest → ∀ s' : BSt, s'.visited = s.visited → s'.disc = s.disc →
+      s'.stack = adv f :: rest → s'.rootChildren = s.rootChildren → Cr nb root s' := by
+    intro f rest hs s' hv hd hst hrc
+    constructor
+    · rw [hrc, hv, hd, hst, spine_adv, ← hs]; exact hc0
+    · rw [hrc, hv, hst]; intro h hl; exact hc1 h (by rw [hs]; simpa using hl)
+  have pop2_case : ∀ f rest, s.stack = f :: rest → rest.length > 1 → ∀ s' : BSt, s'.visited = s.visited →
+      s'.disc = s.disc → s'.stack = rest → s'.rootChildren = s.rootChildren → Cr nb root s' := by
+    intro f rest hs hlen s' hv hd hst hrc
+    have hso := h4.sorted; have hch := h4.chain
+    rw [hs, spine_cons] at hso hch
+    have hpp := parent_pos hso hch (by simpa [spine] using hlen)
+    constructor
+    · rw [hrc, hv, hd, hst]
+      intro h0 y hy hyr
+      obtain ⟨g, hg, hg1, hg2, hg3⟩ := hc0 h0 y hy hyr
+      rw [hs, spine_cons] at hg
+      rcases List.mem_cons.mp hg with hg | hg
+      · exfalso; rw [hg] at hg1; simp only [] at hg1 hpp; rw [hg1, h4.droot] at hpp; omega
+      · exact ⟨g, hg, hg1, hg2, hg3⟩
+    · rw [hst]; intro _ hl; omega
+  apply bstep_cases
+  · intro _; exact ⟨hc0, hc1⟩
+  · intro f rest hs hlt hp; exact adv_case f rest hs _ rfl rfl rfl rfl
+  · intro f rest nn hs hlt hnn hp hv hle; exact adv_case f rest hs _ rfl rfl rfl rfl
+  · intro f rest nn hs hlt hnn hp hv hle; exact adv_case f rest hs _ rfl rfl rfl rfl
+  · intro f rest nn hs hlt hnn hp hv
+    have hne : ∀ v ∈ s.visited, v ≠ nn := fun v hv' he => hv (he ▸ hv')
+    constructor
+    · show s.rootChildren = 0 → ∀ y ∈ nn :: s.visited, y ≠ root →
+        ∃ g ∈ (f.child, nn) :: spine (adv f :: rest), g.1 = root ∧ g.2 ≠ root ∧
+          D (setKV nn s.disc.length s.disc) g.2 ≤ D (setKV nn s.disc.length s.disc) y
+      rw [spine_adv, ← hs]
+      intro h0 y hy hyr
+      have old : ∀ y' ∈ s.visited, y' ≠ root → D s.disc y' ≤ D (setKV nn s.disc.length s.disc) y →
+          ∃ g ∈ (f.child, nn) :: spine s.stack, g.1 = root ∧ g.2 ≠ root ∧
+          D (setKV nn s.disc.length s.disc) g.2 ≤ D (setKV nn s.disc.length s.disc) y := by
+        intro y' hy' hyr' hle
+        obtain ⟨g, hg, hg1, hg2, hg3⟩ := hc0 h0 y' hy' hyr'
+        refine ⟨g, List.mem_cons_of_mem _ hg, hg1, hg2, ?_⟩
+        rw [D_setKV (v := g.2), if_neg (hne _ (hsc g hg).1)]; omega
+      rcases List.mem_cons.mp hy with hy | hy
+      · by_cases hfr : f.child = root
+        · exact ⟨(f.child, nn), by simp, hfr, by rw [← hy]; exact hyr, by rw [hy]; exact Nat.le_refl _⟩
+        · have hfv : f.child ∈ s.visited := h1.child f (by simp [hs])
+          apply old f.child hfv hfr
+          rw [hy, D_setKV, if_pos rfl]; exact Nat.le_of_lt (h4.dlt _ hfv)
+      · apply old y hy hyr
+        rw [D_setKV, if_neg (hne y hy)]; exact Nat.le_refl _
+    · intro _ hl; simp at hl
+  · intro f rest hs hlt hlen hc; exact pop2_case f rest hs hlen _ rfl rfl rfl rfl
+  · intro f rest hs hlt hlen hc; exact pop2_case f rest hs hlen _ rfl rfl rfl rfl
+  · intro f rest hs hlt hlen
+    have hso := h4.sorted; have hch := h4.chain
+    rw [hs, spine_cons] at hso hch
+    have hproot : f.parent = root := parent_root hch (by simpa [spine] using hlen)
+    have hrne : spine rest ≠ [] := by intro h; simp [spine] at h; rw [h] at hlen; simp at hlen
+    have hcpos := top_pos hso hrne
+    simp only [] at hcpos
+    have hcr : f.child ≠ root := by intro he; rw [he, h4.droot] at hcpos; omega
+    constructor
+    · intro h; simp at h
+    · intro hrc _
+      have h0 : s.rootChildren = 0 := by simp only [] at hrc; omega
+      refine ⟨f.child, ?_⟩
+      intro y hy hyr
+      obtain ⟨g, hg, hg1, hg2, hg3⟩ := hc0 h0 y hy hyr
+      have hgf : g = (f.parent, f.child) := by
+        rw [hs, spine_cons] at hg
+        rcases List.mem_cons.mp hg with hg | hg
+        · exact hg
+        · exfalso
+          match rest, hlen, hch, hg with
+          | [g0], _, hch, hg =>
+            simp at hg
+            have : g0.child = root := hch.2.2
+            rw [hg] at hg2; exact hg2 this
+      have := hT (f.parent, f.child) (by rw [hs]; simp) (by rw [hproot]; exact hcr) y hy (by rw [hgf] at hg3; exact hg3)
+      rw [hproot] at this; exact this
+  · intro f hs hlt
+    have hch := h4.chain
+    rw [hs] at hch
+    constructor
+    · intro h0 y hy hyr
+      obtain ⟨g, hg, hg1, hg2, hg3⟩ := hc0 h0 y hy hyr
+      rw [hs] at hg; simp at hg
+      exfalso; rw [hg] at hg2; exact hg2 hch.2
+    · intro hrc _
+      exact hc1 hrc (by rw [hs]; simp)
+
+structure InvC (nb : V → List V) (Vs : List V) (root : V) (s : BSt) : Prop where
+  i1 : Inv1 nb Vs s
+  i2 : Inv2 nb root s
+  i4 : Inv4 root s
+  wit : Wit nb s
+  conn : Conn nb s
+  cr : Cr nb root s
+  ca : ∀ a, a ≠ root → Ca nb root a s
+
+theorem invC_bgo (nb : V → List V) (Vs : List V) (hu : Undirected nb Vs) (root : V) (hr : root ∈ Vs)
+    (n : Nat) : InvC nb Vs root (bgo nb n (init nb root)) := by
+  apply bgo_inv nb (InvC nb Vs root)
+  · intro s h
+    exact ⟨inv1_step nb Vs hu s h.i1, inv2_step nb Vs root s h.i1 h.i2, inv4_step nb Vs root s h.i1 h.i2 h.i4,
+      wit_step nb Vs root s h.i1 h.i4 h.wit, conn_step nb Vs root s h.i1 h.i4 h.conn,
+      cr_step nb Vs root s h.i1 h.i4 h.conn h.cr,
+      fun a har => ca_step nb Vs hu root a har s h.i1 h.i4 h.wit h.conn (h.ca a har)⟩
+  · exact ⟨inv1_init nb Vs root hr, inv2_init nb root, inv4_init nb root, wit_init nb root, conn_init nb root,
+      cr_init nb root, fun a _ => ca_init nb root a⟩
+
+theorem aps_complete (nb : V → List V) (Vs : List V) (hu : Undirected nb Vs) (hd : Vs.Nodup) (root : V) (hr : root ∈ Vs)
+    (hc : connectedB nb Vs = true) :
+    ∀ a ∈ Vs, isCut nb Vs a = true → a ∈ (biccsFrom nb root (biccFuel nb Vs)).2 := by
+  intro a ha hcut
+  have h := invC_bgo nb Vs hu root hr (biccFuel nb Vs)
+  have hst := terminates nb Vs hu root hr
+  have hvis := (visits_all nb Vs hu root hr hc).2
+  obtain ⟨x, y, hx, hy, hxa, hya, hnr⟩ := (C15.isCut_iff nb Vs hu hd a ha).mp hcut
+  have hu' := nbWithout_undirected hu a
+  show a ∈ (if (bgo nb (biccFuel nb Vs) (init nb root)).rootChildren > 1 then
+    insertSet root (bgo nb (biccFuel nb Vs) (init nb root)).aps else (bgo nb (biccFuel nb Vs) (init nb root)).aps)
+  generalize bgo nb (biccFuel nb Vs) (init nb root) = s at h hst hvis
+  by_cases har : a = root
+  · subst har
+    split
+    · exact mem_insertSet_self _ _
+    · next hle =>
+      exfalso
+      have hxv := (hvis x).mpr hx
+      have hyv := (hvis y).mpr hy
+      by_cases h0 : s.rootChildren = 0
+      · obtain ⟨g, hg, _⟩ := h.cr.c0 h0 x hxv hxa
+        rw [hst] at hg; simp at hg
+      · obtain ⟨x0, hx0⟩ := h.cr.c1 (by omega) (by rw [hst]; simp)
+        exact hnr (Reach.trans (Reach.symm hu'.symm (hx0 x hxv hxa)) (hx0 y hyv hya))
+  · have hca := h.ca a har
+    have hin : a ∈ s.aps := by
+      rcases hca with hca | hca
+      · exact hca
+      · exfalso
+        have hrx := hca x ((hvis x).mpr hx) hxa (by rw [hst]; intro g hg; simp at hg)
+        have hry := hca y ((hvis y).mpr hy) hya (by rw [hst]; intro g hg; simp at hg)
+        exact hnr (Reach.trans (Reach.symm hu'.symm hrx) hry)
+    split
+    · exact mem_insertSet_of_mem hin
+    · exact hin
+
 end Gaftools.Proofs.Bicc
